@@ -53,7 +53,7 @@ def teardown(ctx):
 # ------------------------------------------------------------------------------------------- structured builder
 
 CONT_KINDS = ["quote", "bullet", "ordered", "tick", "colon", "div"]
-LEAVES = ["para", "heading", "fence", "icode", "target", "list", "two"]
+LEAVES = ["para", "heading", "fence", "icode", "target", "list", "two", "dupdef"]
 
 
 def leaf(g, kind):
@@ -78,6 +78,13 @@ def leaf(g, kind):
         for mk in f.marks:
             mk["chain"].insert(0, ["bullet_list", 0])
         return f
+    if kind == "dupdef":
+        # a reference definition and a second, multi-line definition of the same label: [myst.duplicate_def] is reported at the duplicate's FIRST line
+        m = g.marker()
+        shape = [["[dd%s]: https://b.example"], ["[dd%s]:", "  https://b.example"], ["[dd%s]:", "  https://b.example", "  \"a title\""], ["[dd%s]: https://b.example", "  'title", "  wraps'"]][g.n % 4]
+        first = G.Frag([f"[dd{m}]: https://a.example"], [])
+        dup = G.Frag([l % m if "%s" in l else l for l in shape], [{"m": "dup-" + m, "off": 0, "kind": "dupdef", "chain": [], "warn_text": f"DD{m}".upper()}])
+        return G.join([first, leaf(g, "para"), dup, leaf(g, "para")])
     if kind == "two":
         return G.join([leaf(g, "para"), leaf(g, "para")])
     raise ValueError(kind)
@@ -123,7 +130,7 @@ def build_struct(case):
 def finish(frag, off=0):
     marks = {}
     for mk in frag.marks:
-        marks[mk["m"]] = {"line": mk["off"] + 1, "kind": mk["kind"], "chain": [[c[0], c[1] + 1] + c[2:] for c in mk["chain"]], "warn": mk.get("warn")}
+        marks[mk["m"]] = {"line": mk["off"] + 1, "kind": mk["kind"], "chain": [[c[0], c[1] + 1] + c[2:] for c in mk["chain"]], "warn": mk.get("warn"), "warn_text": mk.get("warn_text")}
     return "\n".join(frag.lines) + "\n", marks
 
 
@@ -243,9 +250,9 @@ def judge(ctx, case, text, marks, doc, wtext, main_src, detail):
         if mm:
             by_role.setdefault(mm.group(1), []).append(w)
     for m, info in marks.items():
-        if not info.get("warn"):
+        if not info.get("warn") and not info.get("warn_text"):
             continue
-        ws = by_role.get(info["warn"], [])
+        ws = by_role.get(info["warn"], []) if info.get("warn") else [w for w in recs if info["warn_text"] in w["msg"].upper()]
         if len(ws) != 1:
             ctx.violation("warning:count", f"{len(ws)} warnings for the unknown role of marker {m}", case, {**detail, "stream": wtext[-800:]})
             continue
@@ -256,6 +263,9 @@ def judge(ctx, case, text, marks, doc, wtext, main_src, detail):
             ctx.count("warning_lines_correct")
         elif node is not None and w["line"] == node.line:
             ctx.count("warning_line_same_deviation_as_node")  # already reported through the node, same mechanism
+        elif node is None and info.get("warn_text") and w["line"] is not None and (w["line"] - info["line"]) in {
+                node_of[m2].line - i2["line"] for m2, i2 in marks.items() if m2 in node_of and node_of[m2].line is not None and i2["chain"] == info["chain"] and i2.get("source") == info.get("source")}:
+            ctx.count("warning_line_same_deviation_as_sibling_nodes")  # a construct without a node of its own: the container's deviation is already reported through its siblings
         else:
             ctx.violation("warning:line-differs-from-node-and-truth", f"warning for marker {m} reports line {w['line']}, the construct is on line {info['line']} of {os.path.basename(exp_src)} and its node says {getattr(node, 'line', None)}", case, {**detail, "marker": m, "info": info, "warning": w})
         if os.path.basename(w["src"]) != os.path.basename(exp_src):
